@@ -18,7 +18,7 @@ RUN = os.environ.get("VERIF_DIR", VERIF)  # the checks are run from here (a snap
 
 
 def sh(cmd, cwd=None, env=ENV, timeout=3600):
-    p = subprocess.run(cmd, cwd=cwd, env=env, capture_output=True, text=True, timeout=timeout, shell=isinstance(cmd, str))
+    p = subprocess.run(cmd, cwd=cwd, env=env, capture_output=True, text=True, errors="replace", timeout=timeout, shell=isinstance(cmd, str))
     return p.returncode, p.stdout + p.stderr
 
 
